@@ -12,6 +12,7 @@ import (
 	"github.com/PowerDNS/lightningstream/config"
 	"github.com/PowerDNS/lightningstream/syncer"
 	"github.com/PowerDNS/lightningstream/utils/vhook"
+	"github.com/sirupsen/logrus"
 
 	"verif/harness/internal/fault"
 	"verif/harness/internal/lm"
@@ -309,4 +310,56 @@ func goroutinesOf(substr string) string {
 		}
 	}
 	return strings.Join(out, "\n--\n")
+}
+
+// ---------------------------------------------------------------------------
+// Log gates: scheduling points at the log statements of a managed instance.
+// The product has no named yield point INSIDE its LMDB transactions or between
+// two transactions of one LoadOnce/SendOnce call; its log statements are the
+// only places where the goroutine that runs them can be held up there. A gate
+// is called, in the logging goroutine, for every log entry of the instance
+// (entries carry the "instance" field); while a gate is installed the global
+// logger runs at debug level (output stays discarded).
+// ---------------------------------------------------------------------------
+
+type LogGate func(msg string)
+
+var (
+	logGateMu sync.Mutex
+	logGates  = map[string]LogGate{}
+	logHookOn bool
+)
+
+type gateHook struct{}
+
+func (gateHook) Levels() []logrus.Level { return logrus.AllLevels }
+
+func (gateHook) Fire(e *logrus.Entry) error {
+	inst, _ := e.Data["instance"].(string)
+	logGateMu.Lock()
+	g := logGates[inst]
+	logGateMu.Unlock()
+	if g != nil {
+		g(e.Message)
+	}
+	return nil
+}
+
+// SetLogGate installs g for the instance (nil removes it).
+func SetLogGate(inst string, g LogGate) {
+	logGateMu.Lock()
+	defer logGateMu.Unlock()
+	if !logHookOn {
+		logHookOn = true
+		logrus.AddHook(gateHook{})
+	}
+	if g == nil {
+		delete(logGates, inst)
+		if len(logGates) == 0 {
+			logrus.SetLevel(logrus.PanicLevel)
+		}
+		return
+	}
+	logGates[inst] = g
+	logrus.SetLevel(logrus.DebugLevel)
 }
